@@ -82,6 +82,16 @@ for _c in CLASSES:
     globals()[_c.__name__] = _c
     _c.__module__ = __name__
 NotAComponent = 5
+
+
+class NS:
+    """a namespace: the odd classes are ALSO reachable as verifpkg.mods:NS.Inner.Comp<k> (a dotted attribute path)"""
+    class Inner:
+        pass
+
+
+for _c in CLASSES:
+    setattr(NS.Inner, _c.__name__, _c)
 '''.replace('N_CLASSES', str(N)))
 os.makedirs(os.path.join(TMP, "verifmods-0.0.dist-info"))
 with open(os.path.join(TMP, "verifmods-0.0.dist-info", "METADATA"), "w") as f:
@@ -105,6 +115,9 @@ def conv_deep(x):
         return {k: conv_deep(v) for k, v in x.items()}
     if isinstance(x, list):
         return [conv_deep(v) for v in x]
+    if isinstance(x, str) and x.startswith("verifpkg.mods:Comp") and x[-1:].isdigit() and int(x[-1]) % 2:
+        # the same class by a dotted attribute path: a module:attr reference is resolved attribute by attribute
+        return "verifpkg.mods:NS.Inner." + x.split(":", 1)[1]
     return x
 
 
@@ -115,6 +128,8 @@ def unconv(x):
         return [unconv(v) for v in x]
     if isinstance(x, type) and x in verifmods.CLASSES:
         return {"cls": verifmods.CLASSES.index(x)}
+    if isinstance(x, str) and x.startswith("verifpkg.mods:NS.Inner."):
+        return "verifpkg.mods:" + x[len("verifpkg.mods:NS.Inner."):]
     return x
 
 
